@@ -1,6 +1,7 @@
 """C02 - fixed-column records never spill.  Rules LAY, FIT, LATTICE."""
 import ast
-from ..core import AnalysisError, norm, dotted, call_name, walk_no_nested
+from .. import roles
+from ..core import srcline, AnalysisError, norm, dotted, call_name, walk_no_nested
 from ..consteval import Interp, Obj
 from ..layout import TABLES, load_table, fields_of, Field
 from .. import flow
@@ -107,6 +108,23 @@ class _Fit(flow.Analysis):
         self.prog, self.finfo = prog, finfo
         self.is_width, self.helper_ok = is_width, helper_ok
 
+    def template(self, l, depth=0):
+        """how a %-template expression fixes the minimum width: 'spec' = '%' followed by the whole format of the field
+        ('%%%s' % f, '%' + f), 'star' = a literal starting '%*' (width taken from the argument tuple), None = not recognised.
+        A local bound once to such an expression stands for it."""
+        if isinstance(l, ast.Name) and depth < 3:
+            vs = [v for nm, v, st_ in roles.assignments(self.finfo.node) if nm == l.id]
+            return self.template(vs[0], depth + 1) if len(vs) == 1 else None
+        def lit(x): return x.value if isinstance(x, ast.Constant) and isinstance(x.value, str) else None
+        if isinstance(l, ast.BinOp) and isinstance(l.op, ast.Mod):
+            if lit(l.left) == '%%%s' and isinstance(l.right, ast.Name) and l.right.id == self.fmtvar: return 'spec'
+            if lit(l.left) is not None and lit(l.left).replace('%%', '%').startswith('%*'): return 'star'
+        if isinstance(l, ast.BinOp) and isinstance(l.op, ast.Add):
+            if lit(l.left) == '%' and isinstance(l.right, ast.Name) and l.right.id == self.fmtvar: return 'spec'
+            if lit(l.left) is not None and lit(l.left).startswith('%*'): return 'star'
+        if lit(l) is not None and lit(l).startswith('%*'): return 'star'
+        return None
+
     # classification of an expression producing a field string
     def classify(self, e, st):
         d = dict(st)
@@ -118,20 +136,13 @@ class _Fit(flow.Analysis):
                 if isinstance(a, ast.Constant) and isinstance(a.value, str) and len(a.value) == 1 \
                    and self.is_width(b, d):
                     return EQ
-        # ('%%%s' % f) % val   -> at least the width of the format
+        # ('%%%s' % f) % val, ('%' + f) % val   -> at least the width of the format
         if isinstance(e, ast.BinOp) and isinstance(e.op, ast.Mod):
-            l = e.left
-            if isinstance(l, ast.BinOp) and isinstance(l.op, ast.Mod) and \
-               isinstance(l.left, ast.Constant) and l.left.value == '%%%s' and \
-               isinstance(l.right, ast.Name) and l.right.id == self.fmtvar:
-                return GE
+            if self.template(e.left) == 'spec': return GE
         # ('%%*.*%s' % typ) % (width, prec, val): the star width makes the result at least `width` wide
         if isinstance(e, ast.BinOp) and isinstance(e.op, ast.Mod) and isinstance(e.right, ast.Tuple) and e.right.elts \
            and self.is_width(e.right.elts[0], d):
-            l = e.left
-            lit = l.left if isinstance(l, ast.BinOp) and isinstance(l.op, ast.Mod) else l
-            if isinstance(lit, ast.Constant) and isinstance(lit.value, str) and lit.value.lstrip('%').startswith('*'):
-                return GE
+            if self.template(e.left) == 'star': return GE
         if isinstance(e, ast.Call):
             r = self.helper_ok(e, d)
             if r is not None:
@@ -257,12 +268,12 @@ def analyse_helper(prog, finfo, width_param, depth=0):
     order = {EQ: 0, GE: 1, GT: 2, LE: 2, UNK: 3}
     for node, st in out.rets:
         if node.value is None:
-            return UNK, 'bare return in %s line %d' % (finfo.short, node.lineno)
+            return UNK, 'bare return in %s line %d' % (finfo.short, srcline(node))
         if st is None: continue
         c = an.classify(node.value, st)
         if order[c] > order[worst]: worst = c
         if c != EQ:
-            why = 'return at %s line %d yields a string with %s' % (finfo.short, node.lineno, c)
+            why = 'return at %s line %d yields a string with %s' % (finfo.short, srcline(node), c)
     if worst != EQ: return worst, why
     return True, '%d returns all len==w, other exits raise' % len(out.rets)
 
